@@ -503,6 +503,9 @@ def model_specs(draw, profile: Profile, min_feats=1, max_feats=12, with_ctcs=Tru
     for c in ctcs:
         c["ast"] = cap_clause_cost(c["ast"])
     model = {"root": feats[0], "ctcs": ctcs}
+    style = draw(st.integers(0, 5))
+    if style in (1, 2):
+        model["build_style"] = style     # another order of the same public construction calls (build.build_feature)
     if ctcs and draw(st.integers(0, 3)) == 0:
         model["share_nodes"] = True       # equal sub-trees of a constraint are one Node object (see build_node_shared)
     return model
